@@ -5,8 +5,9 @@
    statement by statement into a tree of such accesses (Lib/C03_Conc.prog); whether
    a method's body is wrapped in Acquire/Release is NOT hard-wired: it is read
    from the lock table regenerated from the source (Gen/C03_Gen.v).
-   Definitions only.  Counters (hit/miss/soft_miss) are not modelled: they are not
-   among C03's observables. *)
+   Definitions only.  The statistics counters (hit/miss/soft_miss) are a separate component
+   (not among C03's observables): every `self.x_count += 1` is a read and a write, each its own
+   micro-step, at the place where the code has it -- LRI.get's one is OUTSIDE the lock. *)
 From Boltons Require Import Lib.Prelude Lib.C03_Syntax Lib.C03_Conc.
 
 (* ---- shared state ----------------------------------------------------------- *)
@@ -134,8 +135,26 @@ Definition sem (a : act) (s : shared) : shared * ares :=
   | ADEq l => (s, XBool (dict_eq_items (store s) l))
   end.
 
+(* ---- the statistics counters --------------------------------------------------------------------- *)
+Inductive cname := CHit | CMiss | CSoft.
+Record counters := mkCounters { n_hit : nat; n_miss : nat; n_soft : nat }.
+Definition counters0 : counters := mkCounters 0 0 0.
+Inductive sact := SGet (c : cname) | SSet (c : cname) (v : nat).
+
+Definition ssem (a : sact) (st : counters) : counters * nat :=
+  match a with
+  | SGet CHit => (st, n_hit st) | SGet CMiss => (st, n_miss st) | SGet CSoft => (st, n_soft st)
+  | SSet CHit v => (mkCounters v (n_miss st) (n_soft st), 0)
+  | SSet CMiss v => (mkCounters (n_hit st) v (n_soft st), 0)
+  | SSet CSoft v => (mkCounters (n_hit st) (n_miss st) v, 0)
+  end.
+
+(* self.x_count += 1 : load, add, store *)
+Definition incr (c : cname) : @sprog sact nat :=
+  SAct (SGet c) (fun n => SAct (SSet c (S n)) (fun _ => SDone)).
+
 (* ---- method bodies ----------------------------------------------------------------- *)
-Notation P := (@prog act ares).
+Notation P := (@prog act ares sact nat).
 Definition crash : exn := OtherExn 99.       (* ill-typed access: only reachable from a corrupted ring *)
 Definition hang : exn := OtherExn 98.        (* a ring walk that does not come back to the anchor *)
 
@@ -264,15 +283,15 @@ Section Methods.
       | LRI =>
           Act (ALkGet key) (fun r =>
             match r with
-            | XAddr link => read_value link
-            | XKeyError => on_miss_path key
+            | XAddr link => Stat (incr CHit) (read_value link)          (* self.hit_count += 1 *)
+            | XKeyError => Stat (incr CMiss) (on_miss_path key)         (* self.miss_count += 1 *)
             | _ => Ret (Raise crash)
             end)
       | LRU =>
           bind (get_link_and_move_to_front key) (fun r =>
             match r with
-            | Ok link => read_value link
-            | Raise KeyError => on_miss_path key
+            | Ok link => Stat (incr CHit) (read_value link)
+            | Raise KeyError => Stat (incr CMiss) (on_miss_path key)
             | Raise e => Ret (Raise e)
             end)
       end).
@@ -281,7 +300,7 @@ Section Methods.
     locked MGet (
       bind (m_getitem key) (fun r =>
         match r with
-        | Raise KeyError => Ret (Ok default)
+        | Raise KeyError => Stat (incr CSoft) (Ret (Ok default))   (* self.soft_miss_count += 1 *)
         | r => Ret r
         end)).
 
@@ -313,7 +332,7 @@ Section Methods.
     locked MSetDefault (
       bind (m_getitem key) (fun r =>
         match r with
-        | Raise KeyError => bindr (m_setitem key default) (fun _ => Ret (Ok default))
+        | Raise KeyError => Stat (incr CSoft) (bindr (m_setitem key default) (fun _ => Ret (Ok default)))
         | r => Ret r
         end)).
 
